@@ -135,6 +135,11 @@ class Life:
             life.starts.append((gself.name, [dm.eval_func.func_def.lineno for dm in gself.dms_delay_start]))
             return orig_start(gself)
 
+        from custom_components.pyscript.function import Function
+
+        for attr in ("service_handlers",):   # class-level tables a repaired tree may add (proposed_fixes/C12-D21.diff)
+            if isinstance(getattr(Function, attr, None), dict):
+                setattr(Function, attr, {})
         steps = []
         init_files, maps = {}, {}
         for c in sorted(case.get("init", {}), key=int):
